@@ -36,7 +36,7 @@ NOTE = (
     "map's business: its invariants are checked on the zoo only (bounded)."
 )
 F = "ampform.helicity.HelicityAmplitudeBuilder.__generate_amplitude_prefactor"
-ZOO = ["jpsi_sigmabar_sigma", "jpsi_k0_sigma_pbar_N", "jpsi_gamma_p_pbar", "chic1_phi_phi", "lambdac_p_k_pi", "jpsi_gamma_pi0_pi0", "jpsi_pi0_pip_pim", "d1_k_k_k0", "chic0_omega_omega"]
+ZOO = ["jpsi_sigmabar_sigma", "jpsi_k0_sigma_pbar_N", "jpsi_gamma_p_pbar", "chic1_phi_phi", "lambdac_p_k_pi", "jpsi_gamma_pi0_pi0", "jpsi_pi0_pip_pim", "d1_k_k_k0", "chic0_omega_omega", "chic2_gamma_gamma"]
 
 
 def _real_method():
